@@ -384,24 +384,88 @@ fn rep_index(c: char) -> Option<usize> {
 }
 
 /// Shape through the public API; per character of `text` the form index (0..6, 7 = nominal glyph) or an error text.
-fn api_forms(face: &rustybuzz::Face, script: rustybuzz::Script, pre: &[char], text: &[char], post: &[char]) -> Result<Vec<u8>, String> {
-    let mut b = rustybuzz::UnicodeBuffer::new();
-    for (i, c) in text.iter().enumerate() {
-        b.add(*c, i as u32);
+/// `variant` selects HOW the same request is put to the library (the expected forms do not depend on it):
+///   0  fresh buffer, characters added one by one, both contexts set explicitly (also when empty), no features
+///   1  the buffer recycled from this thread's previous shaping (GlyphBuffer::clear), text added with push_str,
+///      a context set only when it is non-empty: whatever context the previous text had must be gone
+///   2  as 0 with user features that have nothing to do with joining (values beyond 8 bits, switched-off kerning)
+fn api_forms_v(
+    face: &rustybuzz::Face,
+    script: rustybuzz::Script,
+    pre: &[char],
+    text: &[char],
+    post: &[char],
+    variant: u64,
+    recycled: &mut Option<rustybuzz::UnicodeBuffer>,
+) -> Result<Vec<u8>, String> {
+    use std::str::FromStr;
+    let mut b = match (variant, recycled.take()) {
+        (1, prev) => {
+            // history: a text with both contexts set (dual-joining letters), shaped and cleared
+            let mut d = prev.unwrap_or_else(rustybuzz::UnicodeBuffer::new);
+            d.push_str("\u{0628}\u{0628}");
+            d.set_pre_context("\u{0628}\u{0640}");
+            d.set_post_context("\u{0640}\u{0628}");
+            d.set_direction(rustybuzz::Direction::RightToLeft);
+            d.set_script(script);
+            rustybuzz::shape(face, &[], d).clear()
+        }
+        _ => rustybuzz::UnicodeBuffer::new(),
+    };
+    // cluster value -> index of the character
+    let mut index_of: std::collections::BTreeMap<u32, usize> = std::collections::BTreeMap::new();
+    if variant == 1 {
+        let s: String = text.iter().collect();
+        b.push_str(&s);
+        let mut off = 0u32;
+        for (i, c) in text.iter().enumerate() {
+            index_of.insert(off, i);
+            off += c.len_utf8() as u32;
+        }
+        if !pre.is_empty() {
+            b.set_pre_context(&pre.iter().collect::<String>());
+        }
+        if !post.is_empty() {
+            b.set_post_context(&post.iter().collect::<String>());
+        }
+    } else {
+        for (i, c) in text.iter().enumerate() {
+            b.add(*c, i as u32);
+            index_of.insert(i as u32, i);
+        }
+        b.set_pre_context(&pre.iter().collect::<String>());
+        b.set_post_context(&post.iter().collect::<String>());
     }
-    b.set_pre_context(&pre.iter().collect::<String>());
-    b.set_post_context(&post.iter().collect::<String>());
     b.set_direction(rustybuzz::Direction::RightToLeft);
     b.set_script(script);
     b.set_cluster_level(rustybuzz::BufferClusterLevel::Characters);
-    let gb = rustybuzz::shape(face, &[], b);
+    let feats: Vec<rustybuzz::Feature> = if variant == 2 {
+        let sets: [&[&str]; 5] = [&["kern=256"], &["liga=300", "calt=256"], &["dlig=65536", "-kern"], &["kern=511", "smcp=1000"], &["ccmp=257", "rlig=256", "mark=4096"]];
+        sets[(text.len() + pre.len() * 2 + post.len()) % 5].iter().filter_map(|f| rustybuzz::Feature::from_str(f).ok()).collect()
+    } else {
+        Vec::new()
+    };
+    let gb = rustybuzz::shape(face, &feats, b);
+    let res = forms_of(&gb, text, &index_of);
+    *recycled = Some(gb.clear());
+    res
+}
+
+fn api_forms(face: &rustybuzz::Face, script: rustybuzz::Script, pre: &[char], text: &[char], post: &[char]) -> Result<Vec<u8>, String> {
+    api_forms_v(face, script, pre, text, post, 0, &mut None)
+}
+
+fn forms_of(gb: &rustybuzz::GlyphBuffer, text: &[char], index_of: &std::collections::BTreeMap<u32, usize>) -> Result<Vec<u8>, String> {
     let infos = gb.glyph_infos();
     if infos.len() != text.len() {
         return Err(format!("{} glyphs for {} characters", infos.len(), text.len()));
     }
     let mut forms = vec![255u8; text.len()];
     for info in infos {
-        let k = info.cluster as usize;
+        let k = match index_of.get(&info.cluster) {
+            Some(k) => *k,
+            None => return Err(format!("cluster {} unexpected", info.cluster)),
+        };
         if k >= text.len() || forms[k] != 255 {
             return Err(format!("cluster {} unexpected", info.cluster));
         }
@@ -465,6 +529,7 @@ fn api(args: &[String]) {
         hs.push(std::thread::spawn(move || {
             let face = rustybuzz::Face::from_slice(&bytes, 0).unwrap();
             let script = script_of(&sname);
+            let mut recycled: Option<rustybuzz::UnicodeBuffer> = None;
             loop {
                 let k = next.fetch_add(1, std::sync::atomic::Ordering::SeqCst);
                 if k >= jobs.len() {
@@ -477,7 +542,8 @@ fn api(args: &[String]) {
                 let (mut cur, mut fill, mut joined) = (0u64, 0, 0u64);
                 for idx in start..start + count {
                     let t = seq_of(n, idx);
-                    let r = std::panic::catch_unwind(std::panic::AssertUnwindSafe(|| api_forms(&face, script, &p, &t, &q)));
+                    let variant = (idx + n as u64 + pre as u64 + post as u64) % 3;
+                    let r = std::panic::catch_unwind(std::panic::AssertUnwindSafe(|| api_forms_v(&face, script, &p, &t, &q, variant, &mut recycled)));
                     let forms = match r {
                         Ok(Ok(f)) => f,
                         Ok(Err(e)) => {
